@@ -364,6 +364,13 @@ impl FileStateMachine {
         // Load last applied index and term from metadata file
         self.load_metadata().await?;
 
+        // Load the metadata of the last snapshot (written by persist_last_snapshot_metadata)
+        if let Ok(bytes) = std::fs::read(self.data_dir.join("snapshot_metadata.bin")) {
+            if let Ok(meta) = <SnapshotMetadata as prost::Message>::decode(bytes.as_slice()) {
+                *self.last_snapshot_metadata.write() = Some(meta);
+            }
+        }
+
         // Load key-value data from data file
         self.load_data().await?;
 
@@ -968,6 +975,7 @@ impl FileStateMachine {
         }
 
         // Clear all persisted files
+        let _ = std::fs::remove_file(self.data_dir.join("snapshot_metadata.bin"));
         self.clear_data_file().await?;
         self.clear_metadata_file().await?;
         self.clear_wal_async().await?;
@@ -1375,7 +1383,11 @@ impl StateMachine for FileStateMachine {
         &self,
         snapshot_metadata: &SnapshotMetadata,
     ) -> Result<(), Error> {
-        self.update_last_snapshot_metadata(snapshot_metadata)
+        self.update_last_snapshot_metadata(snapshot_metadata)?;
+        // Survive a restart: the purged log can only be bridged with this snapshot.
+        let bytes = prost::Message::encode_to_vec(snapshot_metadata);
+        std::fs::write(self.data_dir.join("snapshot_metadata.bin"), bytes)?;
+        Ok(())
     }
 
     async fn apply_snapshot_from_file(
@@ -1512,7 +1524,7 @@ impl StateMachine for FileStateMachine {
         }
 
         // Update metadata
-        *self.last_snapshot_metadata.write() = Some(metadata.clone());
+        self.persist_last_snapshot_metadata(metadata)?;
 
         if let Some(last_included) = &metadata.last_included {
             self.update_last_applied(*last_included);
@@ -1579,7 +1591,7 @@ impl StateMachine for FileStateMachine {
             checksum: Bytes::from(vec![0; 32]), // Simple checksum for demo
         };
 
-        self.update_last_snapshot_metadata(&metadata)?;
+        self.persist_last_snapshot_metadata(&metadata)?;
 
         info!("Snapshot generated at {:?}", snapshot_path);
 
